@@ -56,6 +56,7 @@ func c19Enc(vk int) (bool, bool) {
 }
 
 var c19Helpers = []string{"text", "html", "json", "jsonbytes", "jsonp", "xml", "blob", "stream", "nocontent", "redirect", "httperror"}
+var c19Renderers = []string{"text", "plain", "textbytes", "html", "htmlbytes", "blob", "json", "jsonindented", "jsonp", "xml", "xmlpretty"}
 var c19Statuses = []int{200, 201, 202, 400, 404, 500, 0}
 var c19Accepts = []string{"", "application/json", "text/xml, application/json", "text/plain, application/json", "application/xml", "text/xml", "text/html, text/plain",
 	"image/png", "image/png, text/plain;q=0.5", "*/*", "application/json;q=0.9, text/plain", " text/plain , application/xml", "text/html", ",,application/xml", "application/xml, text/html"}
@@ -69,6 +70,9 @@ func c19Gen(r *Rng, tier string, i int) Sx {
 	encj, encx := c19Enc(vk)
 	if i%4 == 3 {
 		return L(A("auto"), S(r.Pick(c19Accepts)), I(vk), preset, B(encj), B(encx))
+	}
+	if i%4 == 2 {
+		return L(A("rdr"), A(r.Pick(c19Renderers)), I(vk), preset, B(encj), B(encx))
 	}
 	return L(A("h"), A(r.Pick(c19Helpers)), I(c19Statuses[r.Intn(len(c19Statuses))]), I(vk), preset, B(encj), B(encx))
 }
@@ -196,6 +200,61 @@ func c19Exec(c Sx) (out Sx) {
 			body = SB(w.body)
 		}
 		return L(A("h"), I(w.code), S(ct), body, I(nerr), S(w.snap.Get("Location")))
+	case "rdr":
+		name, vk := c.List[1].Sym(), c.List[2].Int()
+		v := c19Value(vk)
+		if ej, ex := c19Enc(vk); B(ej).Atom != c.List[4].Atom || B(ex).Atom != c.List[5].Atom {
+			panic("c19: inconsistent encodability oracle")
+		}
+		str := c19Strs[vk%len(c19Strs)]
+		w := newRecWriter(nil)
+		if c.List[3].Atom != "none" {
+			w.hdr.Set("Content-Type", c.List[3].Str())
+		}
+		var err error
+		switch name {
+		case "text":
+			err = render.Text(w, str)
+		case "plain":
+			err = render.Plain(w, str)
+		case "textbytes":
+			err = render.TextBytes(w, []byte(str))
+		case "html":
+			err = render.HTML(w, str)
+		case "htmlbytes":
+			err = render.HTMLBytes(w, []byte(str))
+		case "blob":
+			err = render.Blob(w, "application/x-blob", []byte(str))
+		case "json":
+			err = render.JSON(w, v)
+		case "jsonindented":
+			if vk%2 == 0 {
+				err = render.JSONIndented(w, v)
+			} else {
+				err = render.NewJSONIndented().Render(w, v)
+			}
+		case "jsonp":
+			err = render.JSONP("cb", v, w)
+		case "xml":
+			err = render.XML(w, v)
+		case "xmlpretty":
+			err = render.XMLPretty(w, v)
+		default:
+			panic("c19: bad renderer")
+		}
+		var body Sx
+		switch name {
+		case "json", "jsonindented", "jsonp", "xml", "xmlpretty":
+			if err != nil {
+				body = L(A("enc-error"))
+			} else {
+				kind := map[string]string{"json": "json", "jsonindented": "json", "jsonp": "jsonp", "xml": "xml", "xmlpretty": "xml"}[name]
+				body = c19Decoded(kind, v, w.body)
+			}
+		default:
+			body = SB(w.body)
+		}
+		return L(A("rdr"), S(w.hdr.Get("Content-Type")), body, B(err != nil))
 	case "auto":
 		accept, vk := c.List[1].Str(), c.List[2].Int()
 		v := c19Value(vk)
@@ -230,7 +289,12 @@ func c19Exec(c Sx) (out Sx) {
 
 func c19Classify(c, obs Sx) []string {
 	labs := []string{c.Head()}
-	if c.Head() == "h" {
+	if c.Head() == "rdr" {
+		labs = append(labs, "renderer="+c.List[1].Atom)
+		if c.List[3].Atom != "none" {
+			labs = append(labs, "nt:preset-content-type")
+		}
+	} else if c.Head() == "h" {
 		labs = append(labs, "helper="+c.List[1].Atom)
 		if c.List[4].Atom != "none" {
 			labs = append(labs, "nt:preset-content-type")
